@@ -117,7 +117,8 @@ def run_unit(template, rlimit=None, seed=None, do_twins=True):
     res['extraction'] = {'items': [{k: v for k, v in it.items() if k not in ('verbatim', 'contract')} for it in rep['items']]}
     res['serves'] = rep['serves']
     res['replay'] = rep['replay']
-    main_path = os.path.join(GEN, unit.replace('-', '_') + '.rs')
+    tag = '' if seed is None else f'__seed{seed}'   # parallel seed runs must not share files
+    main_path = os.path.join(GEN, unit.replace('-', '_') + tag + '.rs')
     open(main_path, 'w').write(text)
     vx.write_extraction_md(rep, os.path.join(GEN, unit + '.EXTRACTION.md'))
     # trusted base scan
@@ -195,7 +196,7 @@ def run_unit(template, rlimit=None, seed=None, do_twins=True):
     # ------------------------------------------------ vacuity twins
     if do_twins and res['status'] != 'undecided':
         ttext, twins = vx.add_twins(text)
-        tpath = os.path.join(GEN, unit.replace('-', '_') + '__twins.rs')
+        tpath = os.path.join(GEN, unit.replace('-', '_') + tag + '__twins.rs')
         open(tpath, 'w').write(ttext)
         rt = run_verus(tpath, rlimit, seed)
         vac = {'twins': len(twins), 'failing_as_required': 0, 'vacuous': [], 'cmd': rt['cmd']}
